@@ -189,6 +189,8 @@ CONCS = [
          ascii_only=False),
     Conc('mixed', {'a': 'Entw\u00fcrfe', 'b': '{3}'}, wire='literal',
          ascii_only=False),
+    # ordinary names that str.upper() / casefold() turn into INBOX / into each other
+    Conc('inbox-lookalike', {'a': '\u0131nbox', 'b': 'INBO\u212a'}, ascii_only=False),
 ]
 CONC_BY_NAME = {c.name: c for c in CONCS}
 
